@@ -41,9 +41,9 @@ func errKind(err error) string {
 }
 
 var (
-	c10CalOnce              sync.Once
+	c10CalOnce                   sync.Once
 	c10KindMissing, c10KindParse string
-	c10CalErr               string
+	c10CalErr                    string
 )
 
 func c10Calibrate() {
@@ -94,7 +94,7 @@ func c10Doc(t *rapid.T) ([]byte, string) {
 	kind := rapid.SampledFrom([]string{"entries", "entries", "entries", "wellformed", "wellformed", "damaged", "binary", "shape", "tiny"}).Draw(t, "doc-kind")
 	switch kind {
 	case "wellformed":
-		cmds, _ := gen.DB(t, gen.CmdOpts{Platforms: true, Unicode: true, Irregular: true}, []int{1, 2, 3, 8, 0})
+		cmds, _ := gen.DB(t, gen.CmdOpts{Platforms: true, Unicode: true, Irregular: true, Sized: true, Long: true, Heavy: true}, []int{1, 2, 3, 8, 0})
 		if rapid.Bool().Draw(t, "hostile-field") && len(cmds) > 0 {
 			i := rapid.IntRange(0, len(cmds)-1).Draw(t, "i")
 			cmds[i].Command = rapid.SampledFrom([]string{"a\x00b", "\x00", "kill\x00all", "x\xffy", "\x1b[0m"}).Draw(t, "hc") + cmds[i].Command
@@ -157,7 +157,9 @@ func c10Doc(t *rapid.T) ([]byte, string) {
 }
 
 func c10Query(t *rapid.T, cmds []database.Command) string {
-	switch rapid.IntRange(0, 8).Draw(t, "qkind") {
+	switch rapid.IntRange(0, 9).Draw(t, "qkind") {
+	case 9: // the context-clue words of the language heuristics, in complete and cut-off phrases
+		return gen.ClueSentence(t)
 	case 8: // byte length and character count on different sides of any threshold
 		return gen.SizedText(t, rapid.Bool().Draw(t, "sized-spaces"))
 	case 0:
